@@ -27,7 +27,8 @@ RULE = ('exhaustive matrix of (element kind, missing attribute, history, renderi
 ASSUMPTIONS = ['only the attributes the statement enumerates are cleared',
                'for a side mixing two tables the statement fixes .table1/.table2 and .dbml of a non-inline reference; .sql is not constrained']
 EXHAUSTIVE = True
-FLOORS = {'quick': {'matrix': 25, 'ref-cell': 80, 'sampled': 100}, 'thorough': {'matrix': 25, 'ref-cell': 80, 'sampled': 3000}}
+FLOORS_EXPLICIT = True
+FLOORS = {'quick': {'matrix': 25, 'ref-cell': 80, 'sampled': 100}, 'thorough': {'matrix': 25, 'ref-cell': 80, 'sampled': 1500}}
 
 
 def _exc(name):
